@@ -5,6 +5,7 @@ import (
 	"go/types"
 	"regexp"
 	"sort"
+	"strconv"
 	"strings"
 
 	"golang.org/x/tools/go/ssa"
@@ -458,23 +459,88 @@ func c2Numbers(c *Ctx) {
 	}
 	fl := c.Method(CorePath, "jsonEncoder", "appendFloat")
 	if c.Anchor("R2.6", "zapcore.jsonEncoder.appendFloat", fl != nil) {
-		want := map[string]string{`"NaN"`: "IsNaN(val)", `"+Inf"`: "IsInf(val, 1)", `"-Inf"`: "IsInf(val, -1)"}
-		seen := 0
-		for _, bc := range encBufCalls(c, fl) {
-			if bc.m != "AppendString" {
-				continue
+		// every path of appendFloat (helpers included), classified by the outcome of the NaN / ±Inf tests it makes:
+		// a value that tests as NaN/+Inf/-Inf is written as exactly that quoted literal and nothing else; the number
+		// formatter runs only after all three tests failed
+		val := fl.Params[1].Name()
+		tests := map[string]string{"IsNaN(" + val + ")": `"NaN"`, "IsInf(" + val + ", 1)": `"+Inf"`, "IsInf(" + val + ", -1)": `"-Inf"`}
+		seqs, trunc := ConcPaths(fl, ConcCfg{
+			Branch: func(cond ssa.Value, taken bool, st *ConcState) string {
+				d := st.Desc(cond)
+				neg := false
+				for strings.HasPrefix(d, "!") {
+					d, neg = d[1:], !neg
+				}
+				if _, ok := tests[d]; ok {
+					if taken != neg {
+						return "T:" + d
+					}
+					return "F:" + d
+				}
+				return ""
+			},
+			Event: func(in ssa.Instruction, st *ConcState) string {
+				cl, ok := in.(*ssa.Call)
+				if !ok {
+					return ""
+				}
+				f := CalleeFunc(cl)
+				if f == nil || f.Pkg() == nil || f.Pkg().Path() != "go.uber.org/zap/buffer" || !isMutatingBufMethod(f.Name()) {
+					return ""
+				}
+				a := Args(cl)
+				if f.Name() == "AppendFloat" {
+					return "float(" + st.Desc(a[1]) + ")"
+				}
+				if len(a) > 1 {
+					return f.Name() + "(" + st.Desc(a[1]) + ")"
+				}
+				return f.Name()
+			},
+		})
+		var bad []string
+		seen := map[string]bool{}
+		for _, sq := range seqs {
+			ev := strings.Split(sq, " ; ")
+			holds := ""
+			failed := map[string]bool{}
+			var writes []string
+			for _, e := range ev {
+				switch {
+				case strings.HasPrefix(e, "T:"):
+					if holds == "" {
+						holds = e[2:]
+					}
+				case strings.HasPrefix(e, "F:"):
+					failed[e[2:]] = true
+				case e == "":
+				default:
+					writes = append(writes, e)
+				}
 			}
-			b, ok := constBytes(Args(bc.call)[1])
-			if !ok {
-				continue
+			// writes made by addElementSeparator come first and are not about the value
+			var vw []string
+			for _, w := range writes {
+				if w == "AppendByte(44)" || w == "AppendByte(32)" {
+					continue
+				}
+				vw = append(vw, w)
 			}
-			g := want[string(b)]
-			seen++
-			c.Check(g != "" && containsS(AtomStrings(Guards(bc.call)), g), "R2.6", fl.String(), "special/"+string(b), bc.call.Pos(), "the literal %s is emitted exactly under %s", string(b), g)
+			switch {
+			case holds != "":
+				lit := tests[holds]
+				seen[lit] = true
+				if len(vw) != 1 || vw[0] != "AppendString("+strconv.Quote(lit)+")" {
+					bad = append(bad, sq)
+				}
+			default:
+				if len(vw) != 1 || vw[0] != "float("+val+")" || len(failed) != 3 {
+					bad = append(bad, sq)
+				}
+			}
 		}
-		if seen != 3 {
-			c.Bad("R2.6", fl.String(), "specials", fl.Pos(), "expected the three quoted literals NaN, +Inf, -Inf, found %d", seen)
-		}
+		c.Check(!trunc && len(bad) == 0 && len(seen) == 3, "R2.6", fl.String(), "specials", fl.Pos(), "explored %d paths: NaN, +Inf and -Inf are each written as their quoted literal and nothing else, and the number formatter runs only for values that failed all three tests (literals seen %d; offending paths %v)", len(seqs), len(seen), bad)
+
 	}
 }
 
@@ -514,12 +580,14 @@ func c2ErrorExpansion(c *Ctx) {
 	ea := c.Method(CorePath, "errArray", "MarshalLogArray")
 	if c.Anchor("R2.7", "zapcore.errArray.MarshalLogArray", ea != nil) {
 		var app *ssa.Call
-		for _, cl := range Calls(ea) {
+		for _, cl := range CallsDeep(ea) {
 			if cc, ok := cl.(*ssa.Call); ok && cc.Call.IsInvoke() && cc.Call.Method.Name() == "AppendObject" {
 				app = cc
 			}
 		}
-		ok := app != nil && HasAtom(Guards(app), func(s string) bool { return strings.HasSuffix(s, "!= nil") && strings.HasPrefix(s, "errs[") })
+		ok := app != nil && HasAtom(Guards(app), func(s string) bool {
+			return strings.HasSuffix(s, "!= nil") && strings.HasPrefix(s, ea.Params[0].Name()+"[")
+		})
 		c.Check(ok, "R2.7", ea.String(), "nil-causes-skipped", ea.Pos(), "nil causes are skipped, every other one is appended as an object")
 	}
 	el := c.Method(CorePath, "errArrayElem", "MarshalLogObject")
@@ -532,12 +600,14 @@ func c2ErrorExpansion(c *Ctx) {
 	za := c.Method(ZapPath, "errArray", "MarshalLogArray")
 	if c.Anchor("R2.7", "zap.errArray.MarshalLogArray", za != nil) {
 		var app *ssa.Call
-		for _, cl := range Calls(za) {
+		for _, cl := range CallsDeep(za) {
 			if cc, ok := cl.(*ssa.Call); ok && cc.Call.IsInvoke() && cc.Call.Method.Name() == "AppendObject" {
 				app = cc
 			}
 		}
-		ok := app != nil && HasAtom(Guards(app), func(s string) bool { return strings.HasSuffix(s, "!= nil") && strings.HasPrefix(s, "errs[") })
+		ok := app != nil && HasAtom(Guards(app), func(s string) bool {
+			return strings.HasSuffix(s, "!= nil") && strings.HasPrefix(s, za.Params[0].Name()+"[")
+		})
 		c.Check(ok, "R2.7", za.String(), "nil-errors-skipped", za.Pos(), "zap.Errors skips nil elements and appends every other one as an object")
 	}
 }
